@@ -1,0 +1,134 @@
+//go:build verif
+
+// Contracts for deductive verification (comment-only; compiled only with -tags verif).
+// Syntax and semantics: /verif/DESIGN.md §2.6 and Appendix A.
+
+package keeper
+
+//@ func (Keeper) GetNextL1Sequence
+//@   ensures err == nil && ret0 == seqOr1(NextL1Sequence)                                         // C06: next_is_stored_or_1
+//@   assigns \nothing
+
+//@ func (Keeper) IncreaseNextL1Sequence
+//@   requires NextL1Sequence < 18446744073709551614                                               // A-CTR
+//@   ensures err == nil && ret0 == seqOr1(old(NextL1Sequence))                                    // C06: returns_next
+//@   ensures NextL1Sequence == ret0 + 1                                                           // C06: bumps_by_one
+//@   assigns NextL1Sequence
+
+//@ func (Keeper) GetNextL2Sequence
+//@   ensures err == nil && ret0 == seqOr1(NextL2Sequence)                                         // C09: next_is_stored_or_1
+//@   assigns \nothing
+
+//@ func (Keeper) IncreaseNextL2Sequence
+//@   requires NextL2Sequence < 18446744073709551614                                               // A-CTR
+//@   ensures err == nil && ret0 == seqOr1(old(NextL2Sequence))                                    // C09: returns_next
+//@   ensures NextL2Sequence == ret0 + 1                                                           // C09: bumps_by_one
+//@   assigns NextL2Sequence
+
+//@ func (Keeper) GetBaseDenom
+//@   ensures err == nil ==> DenomPairs[denom] == Some(ret0)                                       // C09: base_from_mapping
+//@   ensures DenomPairs[denom] == None ==> err != nil                                             // C09: non_l1_token_rejected
+//@   ensures DenomPairs[denom] != None ==> err == nil                                             // C07: known_denom_never_fails
+//@   assigns \nothing
+
+//@ func (Keeper) BridgeExecutors
+//@   let ex := val(Params).BridgeExecutors
+//@   ensures err == nil ==> Params != None && len(ret0) == len(ex)
+//@   ensures err == nil ==> forall j int :: 0 <= j && j < len(ex) ==> addrOK(1, ex[j]) && ret0[j] == addrBytes(1, ex[j])     // C12: executors_from_params
+//@   ensures Params != None && (forall j int :: 0 <= j && j < len(ex) ==> addrOK(1, ex[j])) ==> err == nil                      // C07: valid_params_never_fail
+//@   loop 0 invariant 0 <= $i && $i <= len(params.BridgeExecutors) && len(addrs) == $i
+//@   loop 0 invariant forall j int :: 0 <= j && j < $i ==> addrOK(1, params.BridgeExecutors[j]) && addrs[j] == addrBytes(1, params.BridgeExecutors[j])
+//@   assigns \nothing
+
+//@ func (MsgServer) checkBridgeExecutorPermission
+//@   let ex := val(Params).BridgeExecutors
+//@   ensures err == nil ==> Params != None && addrOK(1, sender)
+//@   ensures err == nil ==> exists j int :: 0 <= j && j < len(ex) && addrOK(1, ex[j]) && addrBytes(1, ex[j]) == addrBytes(1, sender)   // C12: sender_is_listed_executor
+//@   ensures Params != None && (forall j int :: 0 <= j && j < len(ex) ==> addrOK(1, ex[j])) && addrOK(1, sender)
+//@        && (exists j int :: 0 <= j && j < len(ex) && addrBytes(1, ex[j]) == addrBytes(1, sender)) ==> err == nil                 // C07: listed_executor_is_accepted
+//@   loop 0 invariant 0 <= $i && $i <= len(bridgeExecutors)
+//@   loop 0 invariant isIncluded <==> (exists j int :: 0 <= j && j < $i && bridgeExecutors[j] == senderAddr)
+//@   assigns \nothing
+
+//@ func (MsgServer) checkAdminPermission
+//@   ensures err == nil ==> Params != None && sender == val(Params).Admin                           // C12: sender_is_admin
+//@   assigns \nothing
+
+//@ func (MsgServer) InitiateTokenWithdrawal
+//@   let d := req.Amount.Denom
+//@   let a := req.Amount.Amount
+//@   let sender := addrBytes(1, req.Sender)
+//@   let mod := moduleAddr("opchild")
+//@   requires NextL2Sequence < 18446744073709551614                                               // A-CTR
+//@   ensures err == nil ==> a > 0 && a < 18446744073709551616 && validDenom(d) && addrOK(1, req.Sender) && len(req.To) > 0     // C04: accepted_is_claimable
+//@   ensures err == nil ==> ret0.Sequence == seqOr1(old(NextL2Sequence)) && NextL2Sequence == ret0.Sequence + 1               // C09: next_gap_free_sequence
+//@   ensures err == nil ==> DenomPairs[d] != None                                                                              // C09: only_l1_tokens
+//@   ensures err == nil ==> bank.supply == old(bank.supply)[d := old(bank.supply)[d] - a]                                      // C09: burns_exactly_amount
+//@   ensures err == nil ==> bank.bal == transfer(transfer(old(bank.bal), sender, mod, d, a), mod, mod, d, 0)[(mod, d) := transfer(old(bank.bal), sender, mod, d, a)[(mod, d)] - a]   // C09: debits_signer_only
+//@   emits err == nil ==> ev("initiate_token_withdrawal", "from", req.Sender, "to", req.To, "denom", d, "base_denom", val(DenomPairs[d]),
+//@        "amount", intStr(a), "l2_sequence", fmtU64(ret0.Sequence))                                                           // C09,C04: event
+//@   assigns NextL2Sequence, bank.bal[(sender, d)], bank.bal[(mod, d)], bank.supply[d], events
+
+//@ func (MsgServer) SetBridgeInfo
+//@   let old := val(BridgeInfo)
+//@   ensures err == nil && old(BridgeInfo) != None ==> req.BridgeInfo.BridgeId == old.BridgeId && req.BridgeInfo.BridgeAddr == old.BridgeAddr
+//@        && req.BridgeInfo.L1ChainId == old.L1ChainId && (old.L1ClientId == "" || req.BridgeInfo.L1ClientId == old.L1ClientId)      // C12: binding_never_repointed
+//@   ensures err == nil ==> BridgeInfo == Some(req.BridgeInfo)                                                                      // C12: stored
+//@   ensures err == nil ==> Params != None && addrOK(1, req.Sender) && (exists j int :: 0 <= j && j < len(val(Params).BridgeExecutors)
+//@        && addrOK(1, val(Params).BridgeExecutors[j]) && addrBytes(1, val(Params).BridgeExecutors[j]) == addrBytes(1, req.Sender))   // C12: executor_only
+//@   emits err == nil ==> ev("set_bridge_info", "bridge_id", fmtU64(req.BridgeInfo.BridgeId), "bridge_addr", req.BridgeInfo.BridgeAddr,
+//@        "l1_chain_id", req.BridgeInfo.L1ChainId, "l1_client_id", req.BridgeInfo.L1ClientId)
+//@   assigns BridgeInfo, events
+
+//@ func (MsgServer) FinalizeTokenDeposit
+//@   opt demonic
+//@   opt nopanic
+//@   opt reclaim_succeeds_if_funded
+//@   let n := seqOr1(NextL1Sequence)
+//@   let d := req.Amount.Denom
+//@   let a := req.Amount.Amount
+//@   let to := addrBytes(1, req.To)
+//@   let mod := moduleAddr("opchild")
+//@   let l2seq := seqOr1(NextL2Sequence)
+//@   let valid := addrOK(1, req.Sender) && len(req.From) > 0 && validDenom(d) && a >= 0 && validDenom(req.BaseDenom) && req.Sequence != 0 && req.Height != 0
+//@   let executor := Params != None && (exists j int :: 0 <= j && j < len(val(Params).BridgeExecutors)
+//@        && addrOK(1, val(Params).BridgeExecutors[j]) && addrBytes(1, val(Params).BridgeExecutors[j]) == addrBytes(1, req.Sender))
+//@   let credited := transfer(old(bank.bal)[(mod, d) := old(bank.bal)[(mod, d)] + a], mod, to, d, a)
+//@   requires NextL1Sequence < 18446744073709551614 && NextL2Sequence < 18446744073709551614      // A-CTR
+//@   requires forall k `(Pair Bytes Bytes)` :: bank.bal[k] >= 0                                   // A-BANK: balances are never negative
+//@   ensures err == nil ==> valid && executor                                                     // C12: executor_only
+//@   ensures err == nil && req.Sequence < n ==> ret0.Result == NOOP                               // C06: stale_is_noop
+//@   ensures req.Sequence > n ==> err != nil                                                      // C06: ahead_is_rejected
+//@   ensures err == nil && req.Sequence == n ==> ret0.Result == SUCCESS && NextL1Sequence == n + 1      // C06: processed_once_in_order
+//@   ensures err == nil && req.Sequence < n ==> NextL1Sequence == old(NextL1Sequence) && NextL2Sequence == old(NextL2Sequence) && bank.bal == old(bank.bal)
+//@        && bank.supply == old(bank.supply) && DenomPairs == old(DenomPairs) && auth.acc == old(auth.acc) && bank.meta == old(bank.meta)   // C06: noop_changes_nothing
+//@   emits err == nil && req.Sequence < n ==> nothing                                             // C06: noop_emits_nothing
+//@   ensures err == nil && req.Sequence == n ==> DenomPairs == old(DenomPairs)[d := (old(DenomPairs)[d] != None ? old(DenomPairs)[d] : Some(req.BaseDenom))]   // C09: denom_pair_write_once
+//@   ensures err != nil && valid && executor && (forall j int :: 0 <= j && j < len(val(Params).BridgeExecutors) ==> addrOK(1, val(Params).BridgeExecutors[j]))
+//@        ==> req.Sequence > n                                                                    // C07: never_blocks_the_bridge
+//@   ensures err == nil && req.Sequence == n && !$evOpaque ==>
+//@        (bank.bal == credited && bank.supply == old(bank.supply)[d := old(bank.supply)[d] + a] && NextL2Sequence == old(NextL2Sequence) && addrOK(1, req.To))
+//@     || (bank.bal == old(bank.bal) && bank.supply == old(bank.supply) && NextL2Sequence == l2seq + 1)                        // C07: credit_or_refund_nothing_else
+//@   emits_filtered err == nil && req.Sequence == n && !$evOpaque && NextL2Sequence == old(NextL2Sequence) ==> none("initiate_token_withdrawal")    // C07: credit_records_no_withdrawal
+//@   emits_filtered err == nil && req.Sequence == n && !$evOpaque && NextL2Sequence != old(NextL2Sequence) ==>
+//@        ev("initiate_token_withdrawal", "from", req.To, "to", req.From, "denom", d, "base_denom", val(DenomPairs[d]), "amount", intStr(a), "l2_sequence", fmtU64(l2seq))   // C07,C04: refund_withdrawal_event
+//@   assigns NextL1Sequence, NextL2Sequence, DenomPairs[d], bank.bal, bank.supply, bank.meta, auth.acc, events
+
+//@ func (MsgServer) safeDepositToken
+//@   opt demonic
+//@   opt nopanic
+//@   let mod := moduleAddr("opchild")
+//@   requires len(coins) <= 1 && (len(coins) == 1 ==> coins[0].Amount > 0)                          // normalised coin list as built by sdk.NewCoins
+//@   ensures !success ==> bank.bal == old(bank.bal) && bank.supply == old(bank.supply) && auth.acc == old(auth.acc)          // C07: failed_deposit_leaves_nothing
+//@   ensures success && len(coins) == 1 ==> bank.supply == old(bank.supply)[coins[0].Denom := old(bank.supply)[coins[0].Denom] + coins[0].Amount]   // C07,C09: mints_exactly_amount
+//@   ensures success && len(coins) == 1 ==> bank.bal == transfer(old(bank.bal)[(mod, coins[0].Denom) := old(bank.bal)[(mod, coins[0].Denom)] + coins[0].Amount], mod, toAddr, coins[0].Denom, coins[0].Amount)   // C07: credits_recipient_full_amount
+//@   ensures success && len(coins) == 0 ==> bank.bal == old(bank.bal) && bank.supply == old(bank.supply)                     // C07: zero_amount_only_creates_account
+//@   assigns bank.bal, bank.supply, auth.acc[toAddr]
+
+//@ func (Keeper) handleBridgeHook
+//@   opt demonic
+//@   opt nopanic
+//@   ensures !success ==> bank.bal == old(bank.bal) && bank.supply == old(bank.supply) && bank.meta == old(bank.meta) && NextL2Sequence == old(NextL2Sequence)   // C07: failed_hook_leaves_nothing_but_account_sequence
+//@   ensures NextL1Sequence == old(NextL1Sequence) && DenomPairs == old(DenomPairs) && Params == old(Params) && BridgeInfo == old(BridgeInfo)   // A-ROUTER: executor/authority-gated state is out of a hook's reach
+//@   ensures hookMaxGas == 0 ==> !success                                                                                        // C07: disabled_hook_fails
+//@   assigns bank.bal, bank.supply, bank.meta, auth.acc, NextL2Sequence, events
